@@ -14,7 +14,7 @@ REL = 1e-8
 N_QUICK = 120
 N_THOROUGH = 3000
 RULE = ("random perfect-recall trees x {Full, Sampled, External} x {five presets, None, accepted tuples over "
-        "{-inf,-1,0,.5,1,1.5,2,3,+inf}} x a ladder of budgets (quick: 0..5,7,10,15,25,50; thorough: every T in 0..50) under "
+        "{-inf,-1,0,.5,1,1.5,2,3,+inf} and, for 40% of them, also large / odd finite exponents {-1000,-12.25,37.5,1000} and weights}} x a ladder of budgets (quick: 0..5,7,10,15,25,50; thorough: every T in 0..50) under "
         "pinned draws (table indexed by infoset cell and pass, weights ignored so that every sequence of sampling decisions is "
         "eligible) x 1 and 4 threads: strategies and both bounds against the model; presets read back from the crate's "
         "public fields; non-trivial = T >= 2 on a tree with >= 2 infosets; distinct by (tree, config, T) hash")
@@ -28,7 +28,7 @@ def generate(rng, tier, n):
         t, st = gen_tree(rng, max_nodes=rng.choice([8, 20, 40]), max_depth=rng.choice([3, 5, 6]),
                          p_share=rng.choice([0.5, 0.8]))
         method = rng.choice(["full", "sampled", "external"])
-        params = rand_params(rng)
+        params = rand_params(rng, wild=rng.random() < 0.4)
         draws = draws_for(rng, t, st, n=101)
         threads = rng.choice([1, 1, 4])
         budgets = range(0, 51) if tier == "thorough" else BUDGETS_Q
